@@ -19,9 +19,14 @@ RULE = (
     "(just the prefix / append a letter) and a product strategy (cut the prefix into atoms and a rest, within the "
     "example's own safe index) whose extra_parameters keep, rename, drop (statistic identically 0 on the child), "
     "merge (two parent statistics mapped onto one child statistic) or add (child statistic the parent does not "
-    "track) statistics, with shuffled parameter and dictionary orders. (syn, 55%) synthetic classes given by "
-    "explicit finite tables combined by sum / prod nodes with arbitrary partial, non-injective dictionaries "
-    "(1-3 children, atoms, empty children, minimum sizes 0-2). Forms: the rule, its reverse w.r.t. every child "
+    "track) statistics, with shuffled parameter and dictionary orders. (syn, 37% + quot, 8%) synthetic classes "
+    "given by explicit finite tables combined by sum / prod nodes with arbitrary partial, non-injective dictionaries "
+    "(1-3 children, atoms, empty children, minimum sizes 0-2); the 'quot' sub-stream holds reverse product rules "
+    "whose sympy.div is a real multivariate long division (1-3 parent statistics, siblings with several statistic "
+    "tuples at their minimum size = a divisor with several monomials, a flipped child with several tuples per size, "
+    "sometimes several parent statistics merged onto one statistic of the flipped child); extra_checks require "
+    "every run to contain such divisions (tags q:params, q:multivariate, q:divisor-multiterm, q:long-division, "
+    "q:merged-on-flipped, computed from the true terms and dictionaries, not from the implementation). Forms: the rule, its reverse w.r.t. every child "
     "(Complement / Quotient incl. sympy.div with parameters), the equivalence rule, the equivalence rule of the "
     "reverse, EquivalencePathRule chains (forward steps then reverse steps). rule.get_terms(n), n <= N <= 8, "
     "all parameter tuples, with the sub-term providers bound to the children's TRUE terms; compared with the "
@@ -29,14 +34,18 @@ RULE = (
     "configurations the code does not support: for the Complement forms (reverse / equivalence-of-reverse of a "
     "union w.r.t. a child with merged or untracked statistics) the oracle judges them like every other case and "
     "the two recorded behaviours are reported as KNOWN-FINDING (finding_match; two corpus cases make them appear "
-    "on every run); for Quotient and path edge cases only model = implementation is compared. "
+    "on every run); for Quotient and path edge cases (untracked statistic on the flipped child: Quotient.param_map "
+    "asserts) only model = implementation is compared; Quotient with several parent statistics merged onto one "
+    "statistic of the flipped child is NOT an edge case (C09_quotient_parent_map_round_trip) and is judged by the "
+    "oracle. "
     "Non-trivial: >= 1 extra parameter somewhere, >= 3 levels computed and a level with >= 2 distinct keys or a "
     "count >= 2."
 )
 TECHNIQUE = (
     "Coq proofs over a hand-written executable model of the four constructors' get_terms and the rebuilt "
     "constructors of the derived rule forms (utils.compositions and Quotient.__init__ arithmetic regenerated "
-    "from source) + extracted-model/implementation correspondence on real rule objects"
+    "from source), including the executable step functions the correspondence runs and the model's exact "
+    "polynomial division + extracted-model/implementation correspondence on real rule objects"
 )
 LEVEL_TEXT = (
     "Theorems C09_* (coq/theories/Props/C09.v), for ALL tables, sizes and parameter tuples (no bound): "
@@ -45,7 +54,21 @@ LEVEL_TEXT = (
     "flipped child) whenever the rule is genuine — for the product this is that pruning utils.compositions by "
     "minimum sizes and atom sizes loses nothing w.r.t. the FULL convolution; siblings may drop / merge / add "
     "statistics arbitrarily. C09_quotient_parameter_free: Rule._ensure_level with the Quotient constructor "
-    "(integer branch) returns the flipped child's true counts at every size, by induction over the cache levels. "
+    "(integer branch) returns the flipped child's true counts at every size, by induction over the cache levels; "
+    "the product rule need only be genuine at the sizes read (0 .. N + _parent_shift). "
+    "C09_quotient_params: the same WITH extra parameters (the sympy.div branch, modelled by the exact division "
+    "poly_div): every level is the flipped child's true TABLE, for all sizes and parameter tuples, given the "
+    "minimum-size / atom contract, genuineness at the sizes read, every sibling having an object of its minimum "
+    "size, non-negative counts and parameter values, and the parent map sending the image of a child tuple back "
+    "to it (C09_quotient_parent_map_round_trip: true of the map the code builds whenever every statistic of the "
+    "flipped child is the image of a parent statistic; merged statistics allowed). C09_exact_division / "
+    "C09_exact_quotient_unique / C09_no_zero_divisors: the model's division returns THE exact quotient (unique: "
+    "Z[k_0..] has no zero divisors) whenever dividend = quotient * divisor with tables of counts. "
+    "END TO END: C09_union_step, C09_product_step, C09_complement_step, C09_quotient_step(_parameter_free), "
+    "C09_equivalence_step, C09_equivalence_reverse_step, C09_path_step and the refinement lemmas C09_*_step_is_* "
+    "state the same for the EXECUTABLE functions *_step the correspondence runs (position maps built from the "
+    "dictionaries, then get_terms, inside `levels` = Rule._ensure_level: C09_levels), with genuineness stated "
+    "through the dictionary semantics. "
     "C09_dictionary_maps / C09_param_maps_agree / C09_complement_parent_map / C09_complement_round_trip: the "
     "position maps the code builds from a well-formed extra_parameters dictionary, run through "
     "Constructor.param_map and DisjointUnion.param_map, compute the dictionary semantics (dropped statistic = 0, "
@@ -56,16 +79,20 @@ LEVEL_TEXT = (
 )
 LEVEL_NOTE = (
     "Modelled, not verified: the transcription itself (Count/Constructors.v), tied by the correspondence on real "
-    "rule objects. NOT proved: Quotient WITH parameters (the identity a_n = b_n * c for keyed tables and the "
-    "correctness of the polynomial division; sympy.div is trusted and the model's own exact division is compared "
-    "with it on every quotient case); Quotient.param_map's all-positions-set assertion; fixed_values of the path "
-    "constructor (not used by get_terms)."
+    "rule objects. TRUSTED, not proved: that sympy.div returns the exact quotient (the theorems are about the "
+    "model's exact division, which is compared with what the implementation returns through sympy on every "
+    "reverse product rule with parameters, incl. multi-step multivariate divisions). Not covered: a flipped child "
+    "with a statistic no parent statistic maps to (Quotient.param_map asserts: part of the open finding "
+    "complement-untracked-child-statistic); negative parameter values; fixed_values of the path constructor (not "
+    "used by get_terms); the end-to-end theorem of the path form takes the chain of true tables as given "
+    "(chain_ok), the per-link facts being C09_equivalence / C09_path_reverse_link."
 )
 TRUSTED = [
     "translator harness/translate.py for Gen/Compositions.v and Gen/QuotientParentShift.v (a source edit of "
     "utils.compositions or Quotient.__init__ changes the definitions the theorems are about)",
-    "sympy.div / sympy.Poly in Quotient._b with parameters: modelled by an exact lex-order polynomial division "
-    "(Count/Constructors.v poly_div), not proved equal to sympy's algorithm",
+    "sympy.div / sympy.Poly in Quotient._b with parameters: TRUSTED to return the exact quotient q (q * c_poly = "
+    "a_poly) when one exists; the model divides exactly itself (Count/Constructors.v poly_div, proved to return the "
+    "unique exact quotient: C09_exact_division, C09_exact_quotient_unique) and is compared with the implementation",
     "conversion of Python rule objects to descriptors in harness/props/c09.py (names -> integers, "
     "dict insertion order, Counter iteration order)",
     "harness/universes/words_stats.py: the statistics-carrying word classes (subclass of example.py's "
@@ -80,7 +107,10 @@ ASSUMPTIONS = [
     "complement/quotient: every parameter of the flipped child is the image of exactly one parent parameter "
     "(injective dictionary covering the child's parameters) — the round-trip hypothesis of C09_complement; "
     "otherwise the code asserts or (untracked child statistic) silently reports that statistic as 0",
-    "quotient: at least two children, every sibling has an object of its minimum size (else the code divides by zero)",
+    "quotient: at least two children, every sibling has an object of its minimum size (else the code divides by zero); "
+    "with parameters: parameter values are non-negative (they are exponents of sympy polynomials); every statistic of "
+    "the flipped child is the image of at least one parent statistic (several may be merged onto it)",
+    "quotient: the original product rule is genuine at the sizes 0 .. N + _parent_shift that levels 0..N read",
 ]
 
 ERR = {"AssertionError": 1, "KeyError": 2, "ZeroDivisionError": 3, "NotImplementedError": 4}
@@ -201,8 +231,42 @@ def impl(case):
             "merged": len(set(vals)) < len(vals),
         }
     res["truth"] = [_canon(_U().true_terms(rule.comb_class, n)) for n in range(case["N"] + 1)]
+    if case["form"] == 3:
+        res["qshape"] = _quot_shape(case, res["truth"])
     res["nparams"] = len(rule.comb_class.extra_parameters) + sum(len(c.extra_parameters) for c in rule.children)
     return res
+
+
+def _quot_shape(case, truth):
+    """
+    Shape of the polynomial division a reverse product rule performs, computed from the TRUE terms
+    and the dictionaries only (not from the implementation): number of parent parameters, number
+    of monomials of the divisor c (the siblings at their minimum sizes, statistics added through
+    their dictionaries) and the largest number of monomials of a quotient (a level of the flipped
+    child).  Only used to describe the stream (classify / extra_checks).
+    """
+    base, _ = _build(case)
+    U = _U()
+    names = list(base.comb_class.extra_parameters)
+    idx = case["idx"]
+    c = {tuple(0 for _ in names): 1}
+    for i, (child, d) in enumerate(zip(base.children, base.constructor.extra_parameters)):
+        if i == idx:
+            continue
+        knames = list(child.extra_parameters)
+        new = {}
+        for par, cnt in U.true_terms(child, child.minimum_size_of_object()).items():
+            val = dict(zip(knames, par))
+            add = tuple(val[d[q]] if q in d else 0 for q in names)
+            for k0, v0 in c.items():
+                k1 = tuple(x + y for x, y in zip(k0, add))
+                new[k1] = new.get(k1, 0) + v0 * cnt
+        c = new
+    d = base.constructor.extra_parameters[idx]
+    vals = list(d.values())
+    return {"npar": len(names), "divisor_terms": len([1 for v in c.values() if v]),
+            "quotient_terms": max([len(lv) for lv in truth] or [0]),
+            "merged": len(set(vals)) < len(vals)}
 
 
 # ------------------------------------------------------------------ oracle
@@ -314,6 +378,18 @@ def classify(case, res):
     out = res.get("out")
     if isinstance(out, list) and out[1] != []:
         tags.append("raised:%s" % out[1])
+    q = res.get("qshape")
+    if q and not case.get("edge") and isinstance(out, list) and out[1] == []:
+        if q["npar"] >= 1:
+            tags.append("q:params")  # the sympy.div branch
+        if q["npar"] >= 2 and q["quotient_terms"] >= 2:
+            tags.append("q:multivariate")
+        if q["npar"] >= 1 and q["divisor_terms"] >= 2:
+            tags.append("q:divisor-multiterm")
+        if q["npar"] >= 1 and q["divisor_terms"] >= 2 and q["quotient_terms"] >= 3:
+            tags.append("q:long-division")  # several steps, with a divisor that is not a monomial
+        if q["npar"] >= 1 and q["merged"]:
+            tags.append("q:merged-on-flipped")
     return tags
 
 
@@ -472,7 +548,10 @@ def _gen_words_product(rng):
     if form == 3:
         d = plans[idx]["dict"]
         if len({b for _, b in d}) != len(d):
-            edge = True  # merged statistics on the flipped child: not supported by Quotient
+            # several parent statistics mapped onto one statistic of the flipped child: Quotient.param_map
+            # is only applied to images of child tuples, on which they coincide (C09_quotient_parent_map_round_trip):
+            # judged by the oracle like every other case
+            tags.add("merge-flipped")
     for i, pl in enumerate(plans):
         if not (form == 3 and i == idx) and rng.random() < 0.2:
             pl["stats"].append(["x%d" % i, "letter", rng.choice(alph), 0])
@@ -590,6 +669,56 @@ def _gen_syn(rng):
     return case
 
 
+def _gen_quot(rng):
+    """
+    reverse product rules whose division is a real multivariate polynomial division: 1-3 parent
+    statistics, siblings that are not atoms with several (statistic tuples) at their minimum size
+    (a divisor with several monomials), a flipped child with several tuples per size (a quotient with
+    several monomials), dictionaries that rename / drop / merge; sometimes several parent statistics
+    merged onto one statistic of the flipped child
+    """
+    k = rng.choice([2, 2, 3])
+    idx = rng.randrange(k)
+    npar = rng.choice([1, 2, 2, 3])
+    pnames = ["p%d" % j for j in range(npar)]
+    kids = []
+    tags = set()
+    for i in range(k):
+        flipped = i == idx
+        nn = rng.randint(1, npar) if flipped else rng.choice([0, 1, 1, 2])
+        names = ["s%d_%d" % (i, j) for j in range(nn)]
+        m = rng.randint(0, 2)
+        entries = {}
+        sizes = range(m, m + rng.randint(2, 4)) if flipped else range(m, m + rng.randint(1, 2))
+        for s_ in sizes:
+            for _ in range(rng.randint(2, 4) if (flipped or s_ == m) else rng.randint(1, 2)):
+                entries[(s_, tuple(rng.randint(0, 3) for _ in names))] = rng.randint(1, 3)
+        leaf = ["leaf", names, [[s_, list(p_), c_] for (s_, p_), c_ in sorted(entries.items())]]
+        if flipped:
+            # every statistic of the flipped child is the image of >= 1 parent statistic
+            src = list(pnames)
+            rng.shuffle(src)
+            d = [[pv, cv] for pv, cv in zip(src, names)]
+            for pv in src[len(names):]:
+                if rng.random() < 0.5:
+                    d.append([pv, rng.choice(names)])  # merged onto an already tracked statistic
+                    tags.add("merge-flipped")
+        else:
+            d = _rand_dict(rng, pnames, names)
+            vals = [b for _, b in d]
+            if len(set(vals)) < len(vals):
+                tags.add("merge")
+            if set(names) - set(vals):
+                tags.add("extra")
+        if len(d) < len(pnames):
+            tags.add("drop")
+        rng.shuffle(d)
+        kids.append([leaf, d])
+    node = ["prod", pnames, kids]
+    return {"form": 3, "idx": idx, "N": rng.randint(3, 6), "spec": {"u": "syn", "node": node},
+            "tags": sorted(tags | {"quot"})}
+
+
 def _gen_path(rng):
     """forward steps down to a leaf, then reverse steps up: X0 > X1 > ... > Xb < ... < Xm"""
     base = _rand_leaf(rng, "b", "any")
@@ -651,8 +780,10 @@ def gen(rng, tier):
             c = _gen_words_union(rng)
         elif r < 0.45:
             c = _gen_words_product(rng)
-        elif r < 0.9:
+        elif r < 0.82:
             c = _gen_syn(rng)
+        elif r < 0.9:
+            c = _gen_quot(rng)
         else:
             c = _gen_path(rng)
         if c is None or not _valid(c):
@@ -708,8 +839,24 @@ def shrink(case):
             yield dict(case, spec=dict(spec, patterns=spec["patterns"][1:]))
 
 
+def _quot_covered(case):
+    """form 3: every statistic of the flipped child is the image of a parent statistic (else Quotient.param_map
+    asserts on the UNCHANGED code too: such a case is generated only with the 'edge' mark)"""
+    spec, idx = case["spec"], case["idx"]
+    if spec["u"] == "syn":
+        kid, d = spec["node"][2][idx]
+        names = list(kid[1])
+    else:
+        pl = spec["plans"][idx]
+        names, d = [st[0] for st in pl["stats"]], pl["dict"]
+    vals = {b for _, b in d}
+    return all(x in vals for x in names)
+
+
 def _shrink_valid(case):
     for c in _shrink_raw(case):
+        if c.get("form") == 3 and not c.get("edge") and not _quot_covered(c):
+            continue  # do not shrink a failing quotient case into the unsupported (edge) configuration
         if _valid(c):
             yield c
 
@@ -724,11 +871,13 @@ def extra_checks(ctx):
     for c, (res, _, _) in zip(ctx.cases, ctx.impl_res):
         for t in classify(c, res):
             tags[t] = tags.get(t, 0) + 1
-    need = ["form%d" % f for f in range(7)] + ["u:words", "u:syn", "merge", "merge-flipped", "drop", "extra", "edge"]
+    need = ["form%d" % f for f in range(7)] + ["u:words", "u:syn", "merge", "merge-flipped", "drop", "extra", "edge",
+                                               "q:params", "q:multivariate", "q:divisor-multiterm", "q:long-division",
+                                               "q:merged-on-flipped"]
     missing = [t for t in need if not tags.get(t)] if len(ctx.cases) >= 400 else []
     from harness import gen_selftest
 
-    return [("generator reaches every rule form, both universes, drop/merge/extra statistics", not missing,
+    return [("generator reaches every rule form, both universes, drop/merge/extra statistics, multivariate divisions", not missing,
              "never generated: %s" % missing if missing else "ok"),
             gen_selftest.rejects(_BAD_SNIPPETS)] + gen_selftest.checks(GEN_TARGETS, ctx.seed, ID)
 
